@@ -189,7 +189,12 @@ Definition stim_label (vals : avals) (st : stim) : option label :=
   | SAdj _ _ => None
   end.
 Definition stim_vals (vals : avals) (st : stim) : avals :=
-  match st with SAdj id z => set_val (n id) z vals | _ => vals end.
+  match st with
+  | SAdj id z => set_val (n id) z vals
+  | SEnq p true name => set_val (n name) p vals   (* the harness' adjust functions start at the Enqueue priority;
+                                                     the harness names item k "k", and k is its model id *)
+  | _ => vals
+  end.
 Definition stim_dflt (st : stim) : Z := match st with SErrRecv _ => (-1)%Z | _ => 0%Z end.
 
 (* all quiescent model states after one stimulus from one candidate state *)
@@ -254,3 +259,18 @@ Fixpoint replay_width (vals : avals) (cands : list state) (sc : list (stim * obs
 Definition case := wcase.
 Definition verdict (c : case) : nat := if replay_ok c then 0 else 2.
 Definition mismatches (cs : list case) : list (nat * nat) := collect verdict 0 cs.
+
+(* Classification of a mismatch for a property whose observables are selected by [rel]:
+   1 = no quiescent model state agrees with the implementation even on the property's own observables
+       (the property's monitor, read relative to the model whose every run satisfies the property and whose
+       decisions are the only ones the property allows after the agreed prefix, rejects the observed step);
+   2 = some model state agrees on those observables but differs elsewhere. *)
+Definition classify (rel : obs -> obs -> bool) (c : wcase) : nat :=
+  match replay c with
+  | (0, _, _) => 0
+  | (S k, _, q) =>
+      match nth_error (c_script c) k with
+      | Some (st, o) => if existsb (fun s => rel (model_obs (stim_dflt st) s) o) q then 2 else 1
+      | None => 2
+      end
+  end.
